@@ -60,7 +60,7 @@ def build_store(case):
     cols = {"time": alpha.dt64(tab["time"]), "z": np.array(tab["z"]), "lat": np.array(tab["lat"]), "lon": np.array(tab["lon"])}
     srcs = {}
     for k, sid in enumerate(case["streams"]):
-        srcs[sid] = np.array((S.V, S.W, S.Z)[k % 3][:n], dtype="float64")
+        srcs[sid] = np.array(S._col((S.V, S.W, S.Z)[k % 3], n), dtype="float64")
         cols[sid] = srcs[sid]
     df = pd.DataFrame(cols)
     mods = {}
@@ -259,6 +259,8 @@ def tasks(tier):
     for ss in sets:
         for tests in (["gross_range_test"], ["spike_test"], ["gross_range_test", "spike_test"], ["valid_range_test", "gross_range_test"]):
             ts.append(("store", n, ss, tests))
+    for ss in (["v1"], ["2x", "a b"]):
+        ts.append(("store", 30, ss, ["gross_range_test", "spike_test"]))
     ts.append(("names", 3 if tier == "quick" else 4))
     return ts
 
